@@ -37,17 +37,34 @@ CODES = {1: "model of medium getter/setter (or exchange classification, or solve
          5: "something else changed (non-exchange reaction, classification flags, number of reactions)",
          6: "medium read back is not exactly the entries with positive import",
          7: "the setter raised an exception other than KeyError / ValueError",
-         9: "exact oracle certificate rejected (harness fault)"}
-THEOREMS = ("C18_medium_set_effect, C18_medium_set_bounds, C18_medium_set_get, C18_medium_set_ok_iff "
-            "(coq/theories/Properties/C18.v)")
+         9: "exact oracle certificate rejected (harness fault)",
+         10: "minimal_medium returned None although a medium suffices, or a medium although none suffices",
+         11: "total import of the returned medium is not the certified minimum",
+         12: "the returned medium is not sufficient (applied as the medium, the optimum stays below min_objective_value) "
+             "or cannot be assigned",
+         13: "number of components is not the certified minimum (exhaustive subset enumeration)",
+         14: "alternative media are not pairwise different / more than requested / none",
+         15: "malformed result (entry for a non-exchange, non-positive entry without exports, wrong number of media)",
+         16: "exports: the reported exchange fluxes do not extend to a flux distribution reaching min_objective_value",
+         17: "minimal_medium raised, or did not raise where the bounds setter must (open_exchanges < 0)"}
+THEOREMS = ("C18_medium_set_effect, C18_medium_set_bounds, C18_medium_set_get, C18_medium_set_ok_iff, C18_min_medium_lp, "
+            "C18_medium_sufficient, C18_min_medium_none, C18_min_medium_milp, C18_check_components_sound (coq/theories/Properties/C18.v)")
 RULE = ("networks with 1-5 exchange reactions in either notation (`A -->` / `--> A`), bounds incl. closed / forced import / "
         "forced export / infinite, boundary reactions that are not exchanges (DM_/SK_ names, internal compartment), SBO "
         "annotations overriding the heuristics; every subset of the exchanges as a medium with values from {0,1/2,3,1000} "
         "(+ rare non-exchange / unknown keys and negative values); non-trivial = the case was executed on both sides and "
-        "the dictionary or the set of exchanges is non-empty; distinct = distinct (network, dictionary)")
+        "the dictionary or the set of exchanges is non-empty; distinct = distinct (network, dictionary).  minimal_medium: "
+        "growth networks (all bounds finite) x {linear, minimize_components True/3} x exports x open_exchanges "
+        "{False, True, 10, 0} x target {1/4, 1/2, 1 x exact optimum, unachievable}; non-trivial = at least one exchange")
 TRUSTED = ["find_external_compartment (pandas vote) is taken from the implementation and cross-checked to be `e`",
-           "floating point: all inputs are dyadic, so get/set observations are compared exactly"]
-ASSUMPTIONS = ["optlang/GLPK column bounds are read back with swiglpk and compared with split_bounds of the model state"]
+           "floating point: all inputs are dyadic, so get/set observations are compared exactly",
+           "GLPK LP/MIP answers are validated per instance against certificate-checked exact optima / exhaustive enumeration",
+           "harness/lpexact.py only searches for certificates; coq/theories/LP/Cert.v decides them",
+           "minimal_medium values compared within 1e-6*max(1,|x|); sufficiency with slack 1e-5*max(1,|t|); "
+           "component counts skipped (and counted) when a subset misses the target by less than 1e-5"]
+ASSUMPTIONS = ["optlang/GLPK column bounds are read back with swiglpk and compared with split_bounds of the model state",
+               "GLPK's simplex and branch-and-cut are not verified: their answers are validated on every explored instance",
+               "pairwise distinctness of alternative media is monitored, not proved"]
 SHARD = 60
 
 SBO = {"exchange": "SBO:0000627", "demand": "SBO:0000628", "sink": "SBO:0000632", "biomass": "SBO:0000629"}
